@@ -336,8 +336,17 @@ func families(tier string) []fw.Family {
 		}
 	}
 	bars := [][][]oracle.Pt{{rect(-1, 2, 7, 3, true)}, {rect(3, -1, 4, 7, true)}, {rect(5, 3, 8, 4, true)}, {rect(7, 0, 9, 2, true)}}
+	// almost vertical/horizontal edges: L3 quadrilaterals with one vertex moved by one ulp,
+	// against partners with half-integer coordinates that cross those edges in their interior
+	ulp := c02.UlpShapes(oracle.ContoursModRotation(L3, 4))
+	partners := [][][]oracle.Pt{{rect(-1, 0.5, 1, 1.5, true)}, {rect(-1, 0.5, 3, 1.5, true)}, {rect(0.5, -1, 1.5, 3, true)}, {rect(0, 0.5, 2, 5.5, true)},
+		{{{X: -1, Y: 0.5}, {X: 3, Y: 0.5}, {X: 1, Y: 2.5}}}, {rect(0.5, 0.5, 1.5, 1.5, false)}}
 	var fs []fw.Family
 	fs = append(fs, curvedFamily())
+	fs = append(fs,
+		pairFamily("quad(L3)/rot with one vertex moved by one ulp x half-lattice partners", ulp, partners, 1, oracle.Pt{}, 1e-8, 1e-6, false),
+		pairFamily("half-lattice partners x quad(L3)/rot with one vertex moved by one ulp", partners, ulp, 1, oracle.Pt{}, 1e-8, 1e-6, false),
+	)
 	fs = append(fs,
 		pairFamily("square(L7) x two separate rectangles inside it", outerSq, twoIn, 1, oracle.Pt{}, 1e-8, 1e-6, false),
 		pairFamily("square with two holes (L7, every 7th) x bars", twoHoled, bars, 1, oracle.Pt{}, 1e-8, 1e-6, false),
